@@ -157,6 +157,30 @@ def run(ctx):
         if got != en_answers and not any(isinstance(g, dict) for g in got[:1]):
             k = next(i for i in range(len(got)) if got[i] != en_answers[i])
             oracle_fail.append({"why": "a language that falls back to English does not give the English answer", "config": [l], "got": got[k], "english": en_answers[k], "lines": lines})
+    # 1c. the other route of selecting a language: Language=Auto and the host's language in LanguageAuto. It selects the files that Language=<tag> selects
+    # and gives the same answers (also when LanguageAuto is changed a second time, and when it is given before Language=Auto is... not allowed: rejected)
+    n_auto = 0
+    auto_langs = langs + ["xx", "en-xx", "zh-cn"]
+    def by_route(route_prefs):
+        lines = core.prelude([{"op": "set_pref", "name": n, "value": v} for n, v in route_prefs] + [{"op": "hook", "which": "rule_files"}])
+        lines += [{"op": "set_mathml", "xml": FB[1]}, {"op": "speech"}, {"op": "overview"}, {"op": "nav", "cmd": "ZoomIn"}]
+        rep = im.run([{"op": "session"}] + lines)[1:]
+        bad = [r for q, r in zip(lines, rep) if q["op"] == "set_pref" and r.get("r") != "ok"]
+        hk = next(r for q, r in zip(lines, rep) if q["op"] == "hook")
+        return bad, (hk.get("v") if hk.get("r") == "ok" else {"r": hk.get("r")}), [r.get("v") if r.get("r") == "ok" else {"r": r.get("r")} for r in rep[-3:]], lines
+    for l in auto_langs:
+        other = rng.choice([x for x in langs if x.split("-")[0] != l.split("-")[0]])
+        direct = by_route([("Language", l)])
+        for route in ([("Language", "Auto"), ("LanguageAuto", l)], [("Language", "Auto"), ("LanguageAuto", other), ("LanguageAuto", l)], [("Language", other), ("Language", "Auto"), ("LanguageAuto", l)]):
+            got = by_route(route)
+            n_auto += 1
+            if direct[0]:
+                continue            # the tag itself is rejected
+            if got[0]:
+                oracle_fail.append({"why": "a language that can be selected with Language is rejected through Language=Auto + LanguageAuto", "config": [l], "route": route, "replies": got[0][:2], "lines": got[3]})
+            elif got[1] != direct[1] or got[2] != direct[2]:
+                oracle_fail.append({"why": "Language=Auto + LanguageAuto selects other rule files / gives other answers than Language", "config": [l], "route": route,
+                                    "files": [x for x in (got[1] if isinstance(got[1], list) else [got[1]]) if not isinstance(direct[1], list) or x not in direct[1]][:3], "answers": got[2], "direct_answers": direct[2], "lines": got[3]})
     # 2. every shipped configuration works on the corpus
     C = corpus()
     xmls = [mml.to_xml(t, ns_decl=False) for t in C]
@@ -202,7 +226,7 @@ def run(ctx):
     im.close()
     mo.close()
     ctx.coverage.update({
-        "evaluations": n_eval + n_res, "distinct_nontrivial": n_res,
+        "evaluations": n_eval + n_res + n_auto, "language_auto_routes": n_auto, "distinct_nontrivial": n_res,
         "rule": "resolution: every language directory, regional variant and 12 unknown/odd tags x every style file name + an unknown one x braille codes + an unknown one, the eleven resolved files "
                 "compared with the model (hook H6); operation: every language x style x a verbosity (thorough: all) with a braille code, and every braille code, over a corpus of "
                 + str(len(xmls)) + " expressions covering the element kinds and the common intents: speech, overview, braille and two navigation commands must answer. non-trivial = resolutions compared",
